@@ -306,7 +306,7 @@ class Ref:
         return value
 
     def _select(self, d, did, o2):
-        default = None if d.get("abstract") else {"args": d.get("args", []), "expr": d.get("expr")}
+        default = None if d.get("abstract") else {"args": d.get("args", []), "expr": d.get("expr"), "via": d.get("via")}
         disp = d.get("dispatch")
         overloads = d.get("overloads", [])
         if disp is None:
@@ -342,7 +342,16 @@ class Ref:
             return self._ds({"k": "ds", "id": impl["ds"]}, o2)
         if impl.get("expr") is not None:
             return self.eval(impl["expr"], o2)
-        args = [realise(self.eval(a, o2)) for _, a in impl.get("args", [])]
+        specs = [a for _, a in impl.get("args", [])]
+        order = list(range(len(specs)))
+        if (impl.get("via") or {}).get("defaults") == "var_kwargs":
+            # parameters of the signature are evaluated first, the ones that arrive through **kwargs afterwards
+            # (only the order in which independent arguments FAIL depends on this)
+            order = order[1::2] + order[0::2]
+        vals = {}
+        for i in order:
+            vals[i] = realise(self.eval(specs[i], o2))
+        args = [vals[i] for i in range(len(specs))]
         pid = f"ds{did}:{tag}"
         self._hit("body", pid, canon(args))
         return (f"ds{did}", tag) + tuple(args)
